@@ -11,14 +11,14 @@ import os, re, subprocess, sys
 
 VERIF = os.path.dirname(os.path.abspath(__file__))
 REPO = os.environ.get("VERIF_REPO", "/repo")
-BUILD = os.path.join(VERIF, "_build")
+BUILD = os.environ.get("VERIF_BUILD", os.path.join(VERIF, "_build"))
 
 FLAVOURS = {
     # name: (compiler, par, sanitizer flags)
     "ser": ("g++", -1, ""),
     "par": ("g++", 1, ""),
-    "ser-asan": ("g++", -1, "-fsanitize=address,undefined -fno-sanitize=vptr -fno-sanitize-recover=undefined"),
-    "par-asan": ("g++", 1, "-fsanitize=address,undefined -fno-sanitize=vptr -fno-sanitize-recover=undefined"),
+    "ser-asan": ("g++", -1, "-fsanitize=address,undefined -fno-sanitize=vptr,null,alignment -fno-sanitize-recover=undefined"),
+    "par-asan": ("g++", 1, "-fsanitize=address,undefined -fno-sanitize=vptr,null,alignment -fno-sanitize-recover=undefined"),
     "par-tsan": ("clang++", 1, "-fsanitize=thread"),
 }
 ALL = list(FLAVOURS)
